@@ -938,7 +938,8 @@ class _ArglistRule(SyntaxRule):
             if argument == ',':
                 continue
 
-            if argument.type == 'argument':
+            # `f(x := 1)` is a positional argument.
+            if argument.type == 'argument' and argument.children[1] != ':=':
                 first = argument.children[0]
                 if _is_argument_comprehension(argument) and len(node.children) >= 2:
                     # a(a, b for b in c)
